@@ -481,7 +481,7 @@ def bounded(tier, seed):
             f = '%s raised %s: %s' % (case.__name__, type(e).__name__, e)
         if f:
             return n, f, {'case': case.__name__}
-    for k in range(120 if tier == 'thorough' else 25):
+    for k in range(1500 if tier == 'thorough' else 25):
         n += 1
         try:
             f = history(seed * 1000 + k, 40 if tier == 'thorough' else 25)
@@ -500,7 +500,7 @@ def replay(function, clause, model):
 def run_bounded(tier, seed):
     n, f, inp = bounded(tier, seed)
     return {'tool': 'random histories (connect, disconnect, RequestName, AddMatch, unicast of all four types with forged sender, broadcast, calls to the bus) among up to 5 clients through the real Bus / BusProtocol, wire bytes parsed back; ordering and pre-Hello cases',
-            'bound': '%d histories of %d steps' % ((120, 40) if tier == 'thorough' else (25, 25)),
+            'bound': '%d histories of %d steps' % ((1500, 40) if tier == 'thorough' else (25, 25)),
             'evaluations': n, 'failures': [] if not f else [{'function': 'txdbus.bus', 'clause': 'delivery', 'input': inp, 'detail': f}]}
 
 
